@@ -1,4 +1,5 @@
-import IncrVerif.Engine.Expert
+import IncrVerif.Engine.Alive
+import IncrVerif.MapOps.Operators
 /-!
 # Engine model: recompute, var writes, observers, handlers, stabilise
 -/
@@ -6,6 +7,12 @@ namespace IncrVerif.Engine
 
 def fnZip : Nat := 1000000
 def fnFirst : Nat := 1000001
+/-- the conversions between `V` and the concrete map types around an incremental-map operator -/
+def fnIdent : Nat := 1000002
+/-- `fnPerKey + i`: the `lhs_change` closure of per-key operator instance `i` -/
+def fnPerKey : Nat := 2000000
+/-- `map_with_old` ids from here on are incremental-map operator closures (see `History.lean`) -/
+def opBase : Nat := 1000000
 
 def bumpCounter (f : Counters → Counters) : M Unit :=
   modify fun s => { s with counters := f s.counters }
@@ -53,6 +60,9 @@ def resolveOpnd (loc : List Nat) (o : Opnd) : M Nat := do
   | .loc j => match loc[j]? with
     | some n => pure n
     | none => panic "model:bad-local"
+  | .slot k => match (← get).slots.lookup k with
+    | some n => pure n
+    | none => panic "model:empty-slot"
 
 /-- elaborate one creation instruction; `loc` are the nodes created so far by this closure run,
 `lhsVal` the value the closure received -/
@@ -93,11 +103,88 @@ def elabInstr (loc : List Nat) (lhsVal : Val) (i : Instr) : M (Option Nat) := do
     let n ← createNode (.expert e) sc
     modExpert e fun x => { x with node := n }
     pure (some n)
+  | .publish k o => do
+    let n ← res o
+    modify fun s => { s with slots := (k, n) :: s.slots.filter (·.1 != k) }
+    pure none
+  | .scopedVar v => some <$> createVar v sc
+  | .memoCall _ _ => panic "model:nested-memo"
+  | .mapOp op => do
+    let conv (x : Nat) : M Nat := createNode (.map fnIdent [x]) sc
+    match op with
+    | .fm m x => do
+      let a ← conv (← res x)
+      let o ← createNode (.mapWithOld (opBase + m) a) sc
+      some <$> conv o
+    | .fold m rev upd x => do
+      let a ← conv (← res x)
+      let g := opBase + 100000 + (if rev then 20000 else 0) + (if upd then 10000 else 0) + m
+      let o ← createNode (.mapWithOld g a) sc
+      some <$> conv o
+    | .merge m x y => do
+      let a ← conv (← res x)
+      let b ← conv (← res y)
+      let z ← createNode (.map fnZip [a, b]) sc
+      let o ← createNode (.mapWithOld (opBase + 200000 + m) z) sc
+      some <$> conv o
+    | .part m x => do
+      let a ← conv (← res x)
+      let o ← createNode (.mapWithOld (opBase + 300000 + m) a) sc
+      some <$> conv o
+  | .perKey cut fam x => do
+    let a ← createNode (.map fnIdent [← res x]) sc
+    let e := (← get).experts.size
+    let pk := (← get).perkeys.size
+    modify fun s => { s with experts := s.experts.push { f := 0, pk := some (pk, none) } }
+    let result ← createNode (.expert e) sc
+    modExpert e fun r => { r with node := result }
+    let lc ← createNode (.map (fnPerKey + pk) [a]) sc
+    modify fun s => { s with perkeys := s.perkeys.push { fam := fam, cut := cut, result := result, lhsChange := lc } }
+    -- `result.add_dependency(&lhs_change)`: the node was just created, so it is not necessary and the
+    -- call only records the edge
+    let dep := (← get).nextDep
+    modify fun s => { s with nextDep := s.nextDep + 1 }
+    modExpert e fun r => { r with children := r.children ++ [{ dep := dep, child := lc, cb := none }], forceStale := true }
+    some <$> createNode (.map fnIdent [result]) sc
 
-def elabTemplate (t : Template) (lhsVal : Val) : M Nat := do
-  let mut loc : List Nat := []
+/-- elaborate a template whose first locals are `init` (no memoised calls inside) -/
+def elabTemplateBase (t : Template) (lhsVal : Val) (init : List Nat := []) : M Nat := do
+  let mut loc : List Nat := init
   for i in t.instrs do
     match ← elabInstr loc lhsVal i with
+    | some n => loc := loc ++ [n]
+    | none => pure ()
+  resolveOpnd loc t.ret
+
+/-- a call of a `weak_memoize_fn` function: the stored node if it is still alive, otherwise the function
+runs inside the scope the memoised function was created in (top level) and its result is stored -/
+def memoCall (env : Env) (m : Nat) (key : Int) : M Nat := do
+  let s ← get
+  let stored := ((s.memos.lookup m).getD []).lookup key
+  match stored with
+  | some n =>
+    if s.isAlive n then return n
+  | none => pure ()
+  tick
+  logEv (.note s!"memo m{m} invoked {key}")
+  let old := (← get).currentScope
+  modify fun s => { s with currentScope := .top }
+  let n ← elabTemplateBase (env.memo m) (.int key)
+  modify fun s => { s with currentScope := old }
+  modify fun s => { s with memos :=
+    (m, (key, n) :: ((s.memos.lookup m).getD []).filter (·.1 != key)) :: s.memos.filter (·.1 != m) }
+  pure n
+
+/-- `elabInstr` plus memoised calls (what closures and top-level actions run) -/
+def elabInstrM (env : Env) (loc : List Nat) (lhsVal : Val) (i : Instr) : M (Option Nat) := do
+  match i with
+  | .memoCall m key => some <$> memoCall env m key
+  | i => elabInstr loc lhsVal i
+
+def elabTemplate (env : Env) (t : Template) (lhsVal : Val) : M Nat := do
+  let mut loc : List Nat := []
+  for i in t.instrs do
+    match ← elabInstrM env loc lhsVal i with
     | some n => loc := loc ++ [n]
     | none => pure ()
   resolveOpnd loc t.ret
@@ -378,6 +465,75 @@ def runEffects (env : Env) (fuel : Nat) (effs : List Effect) (arg : Int := 0) : 
     | .xInval e => do expertInvalidate fuel (← resolveOpnd [] e)
     | _ => runEffectBasic env e
 
+/-- the value an expert node's recompute closure returns -/
+def expertValue (env : Env) (e : Nat) (depVals slotVals : List (Option Val)) : M Val := do
+  let er ← getExpert e
+  let s ← get
+  match er.pk with
+  | none => pure (env.expertFn er.f depVals slotVals)
+  | some (op, some key) =>
+    -- per-key input node: `prev_map.get(key).unwrap().clone()`
+    match ((s.perkeys[op]?.map (·.prevMap)).getD []).lookup key with
+    | some v => pure (.int v)
+    | none => panic "incremental-map:per-key:prev_map-unwrap"
+  | some (op, none) =>
+    -- the operator's result: `acc.borrow().clone()`, i.e. what the edge callbacks stored, by key
+    let pr := s.perkeys[op]?.getD default
+    let acc := pr.prevNodes.filterMap fun (k, (_, dep)) =>
+      match er.slots.lookup dep with
+      | some v => some (k, v.toInt)
+      | none => none
+    pure (.map (IncrVerif.AMap.ofList acc))
+
+/-- the `lhs_change` closure of a per-key operator (`incr_filter_mapi_generic_btree_map` /
+`incr_filter_mapi_ordmap`, with the repaired D9: a per-key node nobody holds is skipped) -/
+def perKeyDriver (env : Env) (fuel op : Nat) (newMap : List (Int × Int)) : M Unit := do
+  let pr := (← get).perkeys[op]?.getD default
+  let sc := (← get).currentScope
+  for (key, diff) in IncrVerif.MapOps.symmetricDiff pr.prevMap newMap do
+    let pr := (← get).perkeys[op]?.getD default
+    match diff with
+    | .unequal _ _ =>
+      match pr.prevNodes.lookup key with
+      | none => panic "incremental-map:per-key:nodes-get-unwrap"
+      | some (node, _) => if (← get).isAlive node then expertMakeStale node
+    | .left _ =>
+      match pr.prevNodes.lookup key with
+      | none => panic "incremental-map:per-key:nodes-remove-unwrap"
+      | some (node, dep) =>
+        modify fun s => { s with perkeys := s.perkeys.modify op fun p =>
+          { p with prevNodes := p.prevNodes.filter (·.1 != key) } }
+        let wasAlive := (← get).isAlive node
+        expertRemoveDependency fuel pr.result dep
+        if wasAlive then expertInvalidate fuel node
+    | .right _ =>
+      let e := (← get).experts.size
+      modify fun s => { s with experts := s.experts.push { f := 0, pk := some (op, some key) } }
+      let node ← createNode (.expert e) sc
+      modExpert e fun r => { r with node := node }
+      match pr.cut with
+      | some c => modNode node fun x => { x with cutoff := c }
+      | none => pure ()
+      discard <| expertAddDependency env fuel node pr.lhsChange false
+      tick
+      logEv (.note s!"pk P{pr.fam} key {key} node n{node}")
+      let mapped ← elabTemplateBase (env.perKey pr.fam) (.int key) [node]
+      let dep ← expertAddDependency env fuel pr.result mapped true
+      modify fun s => { s with perkeys := s.perkeys.modify op fun p =>
+        { p with prevNodes := (key, (node, dep)) :: p.prevNodes.filter (·.1 != key) } }
+  modify fun s => { s with perkeys := s.perkeys.modify op fun p => { p with prevMap := newMap } }
+
+/-- what a `map_with_old` closure logs: user-written machines log one invocation; incremental-map operator
+closures log (and may be interrupted at) each call of the user's function -/
+def withOldEvents (env : Env) (g n : Nat) (σ : Val) (old : Option Val) (x new : Val) (did : Bool) : M Unit := do
+  if g < opBase then
+    tick
+    logEv (.inv s!"g{g}" n ((match old with | some o => [o] | none => []) ++ [x]) s!"{new.render},{did}")
+  else
+    for (what, args, res) in env.withOldCalls g σ old x do
+      tick
+      logEv (.inv what n args res)
+
 /-- `recompute_one` -/
 def recomputeOne (env : Env) (fuel n : Nat) : M (Option Nat) := do
   if (← get).cfg.debug then modify fun s => { s with currentlyRunning := some n }
@@ -395,6 +551,11 @@ def recomputeOne (env : Env) (fuel n : Nat) : M (Option Nat) := do
       let v := env.fn f vals
       logEv (.inv s!"f{f}" n vals v.render)
       maybeChangeValue env fuel n v
+    else if f ≥ fnPerKey then
+      match vals.headD .unit with
+      | .map m => perKeyDriver env fuel (f - fnPerKey) m
+      | _ => perKeyDriver env fuel (f - fnPerKey) []
+      maybeChangeValue env fuel n .unit
     else
       maybeChangeValue env fuel n (env.fn f vals)
   | some (.var c) =>
@@ -408,9 +569,8 @@ def recomputeOne (env : Env) (fuel n : Nat) : M (Option Nat) := do
     let x ← valueUnwrap env i "node:recompute_one:child-value"
     let old := nd.value
     modNode n fun y => { y with value := none }
-    tick
     let (σ', new, did) := env.withOld g nd.oldState old x
-    logEv (.inv s!"g{g}" n ((match old with | some o => [o] | none => []) ++ [x]) s!"{new.render},{did}")
+    withOldEvents env g n nd.oldState old x new did
     modNode n fun y => { y with value := some new, oldState := σ' }
     maybeChangeValueManual env fuel n none did true
   | some (.fold f init cs) =>
@@ -429,7 +589,7 @@ def recomputeOne (env : Env) (fuel n : Nat) : M (Option Nat) := do
     tick
     let t := env.body br.body lhsVal
     logEv (.inv s!"b{br.body}" n [lhsVal] "")
-    let rhs ← elabTemplate t lhsVal
+    let rhs ← elabTemplate env t lhsVal
     modify fun s => { s with currentScope := oldScope }
     let oldRhs := br.rhs
     modBind b fun x => { x with rhs := some rhs }
@@ -471,9 +631,10 @@ def recomputeOne (env : Env) (fuel n : Nat) : M (Option Nat) := do
         match edge.cb with
         | some _ => er.slots.lookup edge.dep
         | none => none
-      tick
-      let v := env.expertFn er.f depVals slotVals
-      logEv (.inv s!"x{er.f}" n [] v.render)
+      -- the closures of the per-key operators' own expert nodes live inside incremental-map: no hook
+      if er.pk.isNone then tick
+      let v ← expertValue env e depVals slotVals
+      if er.pk.isNone then logEv (.inv s!"x{er.f}" n [] v.render)
       maybeChangeValue env fuel n v
 
 /-- `recompute`: the direct-recompute chain -/
@@ -594,6 +755,10 @@ def stabiliseEnd (env : Env) (fuel : Nat) : M Unit := do
   for (n, nu) in queue do
     for o in (← getNode n).observers do
       runAll env fuel o n nu now
+  -- weak maps: `garbage_collect` drops the entries whose node has been freed
+  modify fun s =>
+    let alive := s.aliveSet
+    { s with memos := s.memos.map fun (m, tbl) => (m, tbl.filter fun (_, n) => alive.contains n) }
   modify fun s => { s with status := .notStabilising }
 
 def drainHeap (env : Env) : Nat → M Unit
